@@ -1,5 +1,6 @@
 """C05 — the cache never serves a record past its TTL (structural clauses)."""
 from .. import analysis as A
+from .. import panics as P
 from ..analysis import Call, Path, PathEnds, Param, Konst, Any, AnyConst, Field, Bin, Agg, Same
 
 RR = "dns_types::protocol::types::ResourceRecord"
@@ -152,6 +153,23 @@ def run(ctx):
                         return True
             return False
         okg, _ = uc.guarded(b, eq_same_elem)
+        if not okg:
+            # loop / `position` spelling: the removal is reached only after an element of the same vector compared equal
+            # (in its value part) to the new value, and the index removed is that loop's position counter
+            def eq_elem(fct):
+                if fct[0] != "cmp" or fct[1] != "Eq":
+                    return False
+                for x, y in ((fct[2], fct[3]), (fct[3], fct[2])):
+                    py = A.peel(y)
+                    if not (py == ("param", 4) or (py[0] == "field" and py[2] == "0" and A.peel(py[1]) == ("param", 4))):
+                        continue
+                    px = A.peel(x)
+                    if px[0] == "field" and px[2] == "0":
+                        src = A.iter_elem_source(px[1])
+                        if src is not None and (A.same(src, vec) or A.same_value(src, vec)):
+                            return True
+                return False
+            okg = uc.guarded(b, eq_elem)[0] and bool(P.position_counter_bound(u, ur, idx, vec, b))
         ctx.check(okg, "C05.5", "upsert:remove-equal", "swap_remove(i) guarded by tuples[i].0 == new value",
                   "removal is not guarded by equality of the stored value with the new value at the same index", u.loc(b))
         for pb, pt in pushes:
